@@ -42,7 +42,7 @@ PROPS = {
                 gen=parse_family('C06', 3000, 40000, maxlen=9), flavours=['c'],
                 rule='grammars with and without error rules; non-sentences (mutated sentences, prefixes, random strings); recovery off (exact argument tuple) and on (well-formedness of every callback, strictly increasing error tokens, first error token = model)',
                 assumptions=COMMON_ASSUME + ['firstError_iff_viable / firstError2_iff_viable need every nonterminal productive (strict grammars); callback theorems hold for every accepted grammar and input from the explicit fuel recoveryFuel on (Props/RecoveryAccepted: accepted_calls_wf, accepted_first_call)']),
-    'C07': dict(level='proof', theorem_modules=['C07', 'C06', 'C02', 'RecoveredParse', 'RecoveryAccepted', 'RecoveredCost', 'RecoveredRelease', 'ExactCost'], min_theorems=12, tags=['C07'], crash_counts=True,
+    'C07': dict(level='proof', theorem_modules=['C07', 'C06', 'C02', 'RecoveredParse', 'RecoveryAccepted', 'RecoveredCost', 'RecoveredRelease', 'ExactCost', 'RecoverySave'], min_theorems=12, tags=['C07'], crash_counts=True,
                 gen=lambda seed, tier: parse_family('C07', 3000, 40000, maxlen=9)(seed, tier) + [c for c in long_c09_cases(seed, 'quick') if 'farback' in c[0]], flavours=['c', 'c-weak'],
                 rule='grammars with 0..3 error rules, non-sentences <= 9 tokens, recovery_match 1..5, one/all parses, lookahead 0-2: return code, non-NULL tree, tree vs translations of the repaired input (read off the model parse list), ignored-token accounting, callbacks and final parse list vs the step-for-step recovery model',
                 assumptions=COMMON_ASSUME + ['the recovery search is proved to finish within recoveryFuel (exponential in the input length, finding D28) and recovered_parse_one / recovered_parse_all take that fuel; theorems with the hypothesis r.ok hold for any smaller fuel on which the search happened to finish', 'after a recovery the all-parses forest is sound but may be incomplete (finding D9), as without recovery']),
@@ -79,7 +79,7 @@ PROPS = {
                                         capacity_cases(seed + 6)), flavours=['c', 'cxx'],
                 rule='the case families of C01, C07, C14/C15 and C11 plus grammars with hundreds of symbols (C++ containers grow past their initial sizes) are run through libyaep and through class yaep (libyaep++); the two observation streams (return codes, messages, callbacks, flags, exported trees, free_tree traces, hook dumps) must be identical line by line, and both are judged against the same Lean model',
                 assumptions=COMMON_ASSUME + ['cxx_methods_forward is about the method bodies the translator extracts from yaep.cpp (regex-based, checked for one statement per method); that yaep.cpp includes yaep.c compiled as C++ and uses the C++ containers is covered by the stream comparison, not by a theorem']),
-    'C12': dict(level='exploration', theorem_modules=['C01', 'C19', 'CodeTable', 'TermSet', 'SitTable', 'MakeParseTotal'], min_theorems=4, tags=['C12'], crash_counts=True,
+    'C12': dict(level='exploration', theorem_modules=['C01', 'C19', 'CodeTable', 'TermSet', 'SitTable', 'MakeParseTotal', 'RecoverySave', 'VectShare'], min_theorems=4, tags=['C12'], crash_counts=True,
                 gen=lambda seed, tier: (gen.gen_hostile_cases(seed, 30000 if tier == 'thorough' else 2500) +
                                         gen.gen_parse_cases(seed + 1, 6000 if tier == 'thorough' else 400, 'C07', maxlen=9) +
                                         gen.gen_parse_cases(seed + 2, 6000 if tier == 'thorough' else 400, 'C04') +
@@ -96,7 +96,7 @@ PROPS = {
                                        gen.gen_parse_cases(seed + 7, 6000 if tier == 'thorough' else 1500, 'C13'), flavours=['c', 'c-weak'],
                 rule='every caller-side parse_alloc / parse_free / termcb event of every parse is logged with block ids: frees must hit live blocks of the same parse exactly once, everything reachable from the root must lie in live blocks (walk before and after yaep_free_grammar under ASan with real frees), yaep_free_tree must release all blocks of the parse and call termcb once per TERM node; definitions are handed over as heap copies that are scribbled and freed right after the defining call',
                 assumptions=COMMON_ASSUME + ['that the C pointer graph is the exported node table is observed, not proved; partial: memory effects are runtime truth (ASan)']),
-    'C14': dict(level='proof', theorem_modules=['C14', 'SitTable'], min_theorems=8, tags=['C14', 'C15', 'C01', 'C02', 'C05', 'C06', 'C07', 'C10', 'C13', 'C09'], crash_counts=True,
+    'C14': dict(level='proof', theorem_modules=['C14', 'SitTable', 'Lifecycle'], min_theorems=8, tags=['C14', 'C15', 'C01', 'C02', 'C05', 'C06', 'C07', 'C10', 'C13', 'C09'], crash_counts=True,
                 gen=lambda seed, tier: gen.gen_history_cases(seed, 12000 if tier == 'thorough' else 2400), flavours=['c', 'c-weak'],
                 rule='random histories of <= 40 API calls over up to 3 live grammar objects (create, set, define good/defective, redefine, parse with sentences / non-sentences / invalid codes / NULL allocators, error queries, free_tree, free in any order); every return value, callback and tree is compared with the history-free model (a function of the object definition and settings only); library allocator accounting must be zero after all objects are freed',
                 assumptions=COMMON_ASSUME + ['the model is history-free by construction (Model/Api.lean); any deviation of any call is therefore a history dependence']),
@@ -104,14 +104,14 @@ PROPS = {
                 gen=lambda seed, tier: gen.gen_history_cases(seed + 3, 12000 if tier == 'thorough' else 2400), flavours=['c'],
                 rule='the same histories: yaep_error_code / message after every call, return codes of yaep_parse for invalid token codes (below, between and above the declared codes), undefined grammars, NULL allocator with non-NULL free; previous values returned by all setters incl. out-of-range lookahead levels',
                 assumptions=COMMON_ASSUME),
-    'C17': dict(level='fault_enumeration', theorem_modules=['C14', 'C17'], min_theorems=4, tags=['C17', 'C12', 'C15', 'C14', 'C13'], crash_counts=True, runner=None,
+    'C17': dict(level='fault_enumeration', theorem_modules=['C14', 'C17', 'Lifecycle'], min_theorems=4, tags=['C17', 'C12', 'C15', 'C14', 'C13'], crash_counts=True, runner=None,
                 flavours=['c', 'cxx', 'c-fi'],
                 rule='scenarios (callback-defined and description-defined grammars, parse with and without error recovery, all parses with cost pruning, dynamic lookahead, a second live object): the fault-free run counts the library allocations of yaep_create_grammar / the definition / yaep_parse; then for every k (thorough: all k; quick: a strided sample incl. the first and last 10) the k-th allocation of that call fails: expected NULL resp. YAEP_NO_MEMORY with error code 1, no sanitizer report, yaep_free_grammar succeeds, the other object still parses as the model says; non-trivial = a variant in which the injected failure actually fired',
                 assumptions=['malloc/calloc/realloc/free of allocate.c are replaced by counting, failing wrappers (no source hook); operator new of the C++ containers is not injected',
                              'which blocks the longjmp unwinding leaks is not judged (leaks are reported as statistics only); partial: memory effects are runtime truth (ASan)',
                              'Lean: Model/ApiFault.lean (the API state machine under a single failing allocation: NULL / YAEP_NO_MEMORY, a failed definition leaves the object undefined, a failed parse changes nothing but the error code) with Props/C17.lean: fault_result, fault_local, fault_errcode, fault_define_undefined, fault_parse_keeps, fault_settings_kept, fault_then_free, fault_then_redefine, fault_bystander_run; the judge applies objStepFault to every injected failure'],
                 technique='exhaustive single-fault enumeration over allocation indices, judged by the Lean API model'),
-    'C18': dict(level='exploration', theorem_modules=['C18', 'BuildSet', 'BuildSet2', 'C18Etf'], min_theorems=18, tags=['C18'], crash_counts=True, runner=None, flavours=['c'],
+    'C18': dict(level='exploration', theorem_modules=['C18', 'BuildSet', 'BuildSet2', 'C18Etf', 'VectShare'], min_theorems=18, tags=['C18'], crash_counts=True, runner=None, flavours=['c'],
                 rule='left-recursive list, E/T/F arithmetic and the 200-rule ANSI C grammar of test41.c on the tokens of test/test.i (the repo lexer ansic.l), input lengths 1k..16k/32k (thorough: ..512k) doubling, lookahead 0,1,2: bytes requested from the allocator during yaep_parse, hash searches, unique situations / set cores / distance vectors / sets / triples must grow by at most a calibrated factor per doubling (bytes 2.6, searches 3.5, ...), at most 4 hash collisions per search, never more unique sets than tokens, goto-cache hits do not shrink; the same counters after make_parse in the all-parses and cost configurations; on random grammars and short inputs the numbers of unique set cores, distance vectors and sets equal those of the step-for-step Lean model of set_insert (identical sets are found again, not rebuilt); non-trivial = a (family, lookahead, n -> 2n) pair with both measurements',
                 assumptions=['measured, not proved: hash distribution, allocator behaviour and wall time are outside any model; thresholds calibrated on the unchanged tree with head-room',
                              'hash collisions are judged per search (<= 4 collisions per search + 1000): their growth at small sizes is table warm-up, not superlinear work'],
@@ -393,6 +393,28 @@ def run_c18(pid, P, tier, seed):
     cov['flavours'] = P.get('flavours', ['c'])
     return dict(coverage=cov, failures=failures, search_note='')
 
+
+
+def recsave_tie():
+    """C07, deep tie of Model/RecoverySave.lean (lazy save / restore of the parser list during error
+    recovery): the library built from the current tree runs 8 recovering parses at debug level 3; the
+    Save / Restore / Set-recovery-state lines it prints must be exactly the events the Lean model
+    produces for the same operation sequence, and the sequence must satisfy the proved `protocol`
+    (tools/recsave: the trace becomes `#guard`s, elaborated here).  Returns a list of D failures."""
+    import subprocess
+    out = os.path.join(build.WORK, 'recsave', 'RecoverySaveLibNow.lean')
+    env = dict(os.environ, RECSAVE_OUT=out, VERIF_REPO=build.REPO)
+    fail = lambda d: [dict(prop='C07', kind='D', case='recsave', op='0', detail=d, context=[], replay_lines=[])]
+    p = subprocess.run(['sh', os.path.join(build.VERIF, 'tools', 'recsave', 'run.sh')], env=env, capture_output=True, text=True)
+    if p.returncode != 0 or not os.path.exists(out):
+        return fail('recovery trace of the library could not be produced: ' + (p.stdout + p.stderr)[-600:])
+    n = open(out).read().count('#guard')
+    if n < 12:
+        return fail('only %d recoveries found in the debug trace of the library (12 expected)' % n)
+    q = subprocess.run(['lake', 'env', 'lean', out], cwd=build.LEAN, capture_output=True, text=True)
+    if q.returncode != 0:
+        return fail('save / restore events of the library differ from Model/RecoverySave.lean (or the protocol is violated): ' + (q.stdout + q.stderr)[-1200:])
+    return []
 
 def long_c09_cases(seed, tier):
     """long inputs with many repeated fragments (ANSI C on real C code, E/T/F), with and without
